@@ -892,3 +892,219 @@ pub fn repair_crcs(d: &mut [u8], start: usize, header_len: usize, end: usize, fi
         d[end - 1] = c as u8;
     }
 }
+
+// ------------------------------------------------------------------------------------------
+// independent frame *writer* (RFC 9639 section 9), used to build generator-made frames without
+// going through the crate's structural writer
+
+pub struct BitOut {
+    pub bytes: Vec<u8>,
+    nbits: usize,
+}
+
+impl BitOut {
+    pub fn new() -> Self {
+        BitOut { bytes: Vec::new(), nbits: 0 }
+    }
+    pub fn put(&mut self, n: u32, v: u64) {
+        for i in (0..n).rev() {
+            let bit = ((v >> i) & 1) as u8;
+            if self.nbits % 8 == 0 {
+                self.bytes.push(0);
+            }
+            let last = self.bytes.len() - 1;
+            self.bytes[last] |= bit << (7 - (self.nbits % 8));
+            self.nbits += 1;
+        }
+    }
+    pub fn put_signed(&mut self, n: u32, v: i64) {
+        let mask = if n >= 64 { u64::MAX } else { (1u64 << n) - 1 };
+        self.put(n, (v as u64) & mask);
+    }
+    pub fn unary(&mut self, q: u64) {
+        for _ in 0..q {
+            self.put(1, 0);
+        }
+        self.put(1, 1);
+    }
+    pub fn align(&mut self) {
+        while self.nbits % 8 != 0 {
+            self.put(1, 0);
+        }
+    }
+}
+
+#[derive(Debug, Clone)]
+pub enum PartSpec {
+    /// Rice parameter, residuals
+    Rice(u32, Vec<i64>),
+    /// escape width (1..=31), residuals
+    Escaped(u32, Vec<i64>),
+    /// escape width 0: all residuals zero
+    Zero(usize),
+}
+
+#[derive(Debug, Clone)]
+pub enum SubSpec {
+    Constant { sample: i64 },
+    Verbatim { samples: Vec<i64> },
+    Fixed { order: u32, warm_up: Vec<i64>, method1: bool, parts: Vec<PartSpec> },
+    Lpc { order: u32, warm_up: Vec<i64>, precision: u32, shift: u32, coefs: Vec<i64>, method1: bool, parts: Vec<PartSpec> },
+}
+
+#[derive(Debug, Clone)]
+pub struct SubframeSpec {
+    /// subframe bit depth before wasted bits are removed (frame depth, +1 for a side channel)
+    pub bits: u32,
+    pub wasted: u32,
+    pub body: SubSpec,
+}
+
+#[derive(Debug, Clone)]
+pub struct FrameSpec {
+    pub block_size: u32,
+    pub rate_code: u8,
+    /// 0..=7 independent (channels-1), 8 left/side, 9 side/right, 10 mid/side
+    pub assignment: u8,
+    pub bps_code: u8,
+    pub number: u64,
+    pub subs: Vec<SubframeSpec>,
+}
+
+fn put_coded_number(o: &mut BitOut, v: u64) {
+    if v < 0x80 {
+        o.put(8, v);
+        return;
+    }
+    let (extra, lead, bits) = if v < 0x800 {
+        (1, 0xC0u64, 5)
+    } else if v < 0x1_0000 {
+        (2, 0xE0, 4)
+    } else if v < 0x20_0000 {
+        (3, 0xF0, 3)
+    } else if v < 0x400_0000 {
+        (4, 0xF8, 2)
+    } else if v < 0x8000_0000 {
+        (5, 0xFC, 1)
+    } else {
+        (6, 0xFE, 0)
+    };
+    let top = if bits == 0 { 0 } else { (v >> (6 * extra)) & ((1 << bits) - 1) };
+    o.put(8, lead | top);
+    for i in (0..extra).rev() {
+        o.put(8, 0x80 | ((v >> (6 * i)) & 0x3F));
+    }
+}
+
+fn put_residual(o: &mut BitOut, method1: bool, parts: &[PartSpec]) {
+    o.put(2, method1 as u64);
+    o.put(4, parts.len().trailing_zeros() as u64);
+    let pbits = if method1 { 5 } else { 4 };
+    let esc = (1u64 << pbits) - 1;
+    for p in parts {
+        match p {
+            PartSpec::Rice(k, r) => {
+                o.put(pbits, *k as u64);
+                for v in r {
+                    let u = if *v < 0 { ((-(*v) as u64) << 1) - 1 } else { (*v as u64) << 1 };
+                    o.unary(u >> k);
+                    o.put(*k, u & ((1u64 << k) - 1));
+                }
+            }
+            PartSpec::Escaped(w, r) => {
+                o.put(pbits, esc);
+                o.put(5, *w as u64);
+                for v in r {
+                    o.put_signed(*w, *v);
+                }
+            }
+            PartSpec::Zero(_) => {
+                o.put(pbits, esc);
+                o.put(5, 0);
+            }
+        }
+    }
+}
+
+/// serialises one frame exactly as RFC 9639 section 9 lays it out
+pub fn write_frame(f: &FrameSpec) -> Vec<u8> {
+    let mut o = BitOut::new();
+    o.put(15, 0b111111111111100);
+    o.put(1, 0); // fixed block size stream
+    let bs_code: u64 = match f.block_size {
+        192 => 1,
+        576 => 2,
+        1152 => 3,
+        2304 => 4,
+        4608 => 5,
+        256 => 8,
+        512 => 9,
+        1024 => 10,
+        2048 => 11,
+        4096 => 12,
+        8192 => 13,
+        16384 => 14,
+        32768 => 15,
+        n if n <= 256 => 6,
+        _ => 7,
+    };
+    o.put(4, bs_code);
+    o.put(4, f.rate_code as u64);
+    o.put(4, f.assignment as u64);
+    o.put(3, f.bps_code as u64);
+    o.put(1, 0);
+    put_coded_number(&mut o, f.number);
+    match bs_code {
+        6 => o.put(8, (f.block_size - 1) as u64),
+        7 => o.put(16, (f.block_size - 1) as u64),
+        _ => {}
+    }
+    let c8 = crc8(&o.bytes);
+    o.put(8, c8 as u64);
+    for s in &f.subs {
+        o.put(1, 0);
+        let ty: u64 = match &s.body {
+            SubSpec::Constant { .. } => 0,
+            SubSpec::Verbatim { .. } => 1,
+            SubSpec::Fixed { order, .. } => 8 + *order as u64,
+            SubSpec::Lpc { order, .. } => 31 + *order as u64,
+        };
+        o.put(6, ty);
+        if s.wasted > 0 {
+            o.put(1, 1);
+            o.unary(s.wasted as u64 - 1);
+        } else {
+            o.put(1, 0);
+        }
+        let eb = s.bits - s.wasted;
+        match &s.body {
+            SubSpec::Constant { sample } => o.put_signed(eb, *sample),
+            SubSpec::Verbatim { samples } => {
+                for v in samples {
+                    o.put_signed(eb, *v);
+                }
+            }
+            SubSpec::Fixed { warm_up, method1, parts, .. } => {
+                for v in warm_up {
+                    o.put_signed(eb, *v);
+                }
+                put_residual(&mut o, *method1, parts);
+            }
+            SubSpec::Lpc { warm_up, precision, shift, coefs, method1, parts, .. } => {
+                for v in warm_up {
+                    o.put_signed(eb, *v);
+                }
+                o.put(4, (*precision - 1) as u64);
+                o.put(5, *shift as u64);
+                for c in coefs {
+                    o.put_signed(*precision, *c);
+                }
+                put_residual(&mut o, *method1, parts);
+            }
+        }
+    }
+    o.align();
+    let c16 = crc16(&o.bytes);
+    o.put(16, c16 as u64);
+    o.bytes
+}
